@@ -775,7 +775,7 @@ fn delta(_thorough: bool) -> Vec<EdgeGlyph> {
             for dr in [-1, 0, 1] {
                 // SDB := MPPEM - 16*range - r - dr ... the entries use rel = r: fire iff dr == 0
                 for &shift in &[0, 3, 6] {
-                    for touch in 0..3 {
+                    for touch in 0..4 {
                         let mut p = P::new();
                         p.set(SDS, shift);
                         p.op(MPPEM).push(&[16 * range + r + dr]).op(SUB).op(SDB);
@@ -787,6 +787,13 @@ fn delta(_thorough: bool) -> Vec<EdgeGlyph> {
                         }
                         if touch == 2 {
                             p.push(&[0]).op(MDAP).op(IUP_Y).op(IUP_X);
+                        }
+                        if touch == 3 {
+                            // only one IUP done: deltas on touched points still apply in backward compatibility
+                            for i in 0..16 {
+                                p.push(&[i]).op(MDAP);
+                            }
+                            p.op(if r % 2 == 0 { IUP_Y } else { IUP_X });
                         }
                         let mut v = vec![];
                         for i in 0..16 {
@@ -960,7 +967,7 @@ fn iup(_thorough: bool) -> Vec<EdgeGlyph> {
         // contour 0: ref A, candidates…, ref B, more candidates (wrap-around segment); contour 1: untouched / single touch
         let mut pts = vec![(lo, lo, true)];
         for &c in &cands {
-            pts.push((c, c + 7, true));
+            pts.push((c, c, true));
         }
         pts.push((hi, hi, true));
         let b_ix = pts.len() as i32 - 1;
@@ -971,13 +978,19 @@ fn iup(_thorough: bool) -> Vec<EdgeGlyph> {
         pts.extend([(700, 100, true), (800, 100, true), (800, 300, false), (700, 300, true)]);
         let ends = vec![e0, pts.len() - 1];
         let c1 = e0 as i32 + 1;
-        for (m1, m2) in [(0, 0), (64, 64), (37, -21), (-100, 130), (0, 77)] {
+        for (m1, m2) in [(0, 0), (64, 64), (37, -21), (-100, 130), (0, 77), (9999, 9999)] {
             for touch1 in 0..3 {
                 let mut p = P::new();
                 for axis_x in [false, true] {
                     p.svtca(axis_x);
-                    p.push(&[0, m1]).op(SHPIX);
-                    p.push(&[b_ix, m2]).op(SHPIX);
+                    if m1 == 9999 {
+                        // both references end on the SAME current coordinate (cur1 == cur2 branch)
+                        p.push(&[0, 23]).op(SHPIX);
+                        p.push(&[b_ix]).gc(1, 0, false).op(SCFS);
+                    } else {
+                        p.push(&[0, m1]).op(SHPIX);
+                        p.push(&[b_ix, m2]).op(SHPIX);
+                    }
                     match touch1 {
                         1 => {
                             p.push(&[c1 + 1, 50]).op(SHPIX);
@@ -1035,10 +1048,21 @@ fn shift(_thorough: bool) -> Vec<EdgeGlyph> {
                                 p.set(SZP2, 1);
                                 p.push(&[6]).op(MDAP);
                                 p.push(&[2]).op(SLOOP).push(&[6, 7, 33]).op(SHPIX);
-                                if a == 1 {
-                                    p.op(IUP_X).op(IUP_Y);
-                                    p.push(&[2]).op(SLOOP).push(&[6, 7, 21]).op(SHPIX);
+                                // after IUP in one direction only SHPIX still works, after both it is blocked
+                                // (backward compatibility); refp selects which IUPs run
+                                match (a, refp) {
+                                    (1, 0) => {
+                                        p.op(IUP_X).op(IUP_Y);
+                                    }
+                                    (1, _) => {
+                                        p.op(IUP_X);
+                                    }
+                                    (_, 0) => {
+                                        p.op(IUP_Y);
+                                    }
+                                    _ => {}
                                 }
+                                p.push(&[2]).op(SLOOP).push(&[6, 7, 21]).op(SHPIX);
                             }
                         }
                         if tw == 2 {
@@ -1433,6 +1457,11 @@ pub fn run(cfg: &Config, s: &mut Session) {
         }
         // opcode semantics do not depend on the target except through backward compatibility
         // (mono: off; smooth: on) and GETINFO: two targets for the big families, all five for the rest
+        // DELTAP2/3 and DELTAC2/3 need ppem >= 16/32 + rel for a non-negative delta base
+        let mut ppems = ppems.clone();
+        if f.family == "delta" {
+            ppems.extend([33, 50]);
+        }
         let big = f.glyphs.len() > 300;
         let modes: &[Option<Hinting>] = if big && !cfg.thorough() { &two_modes } else { &all_modes };
         crate::differential(cfg, s, &path, &ppems, modes);
